@@ -214,7 +214,7 @@ pub fn gen_for(target: Target, rng: &mut Rng) -> Node {
                 ("items".into(), Node::Seq((0..n).map(|_| gen_inner(rng)).collect())),
             ])
         }
-        Target::VecI | Target::LenientVec => {
+        Target::VecI | Target::LenientVec | Target::LenientJsonVec => {
             let n = rng.below(8);
             Node::Seq((0..n).map(|_| Node::Int(rng.below(100000) as i64 - 50000)).collect())
         }
